@@ -7,11 +7,11 @@ package main
 // (returned offset <= len(buffer)) and preconditions established by every caller of an unexported function.
 
 import (
-	"os"
-	"go/constant"
 	"fmt"
+	"go/constant"
 	"go/token"
 	"go/types"
+	"os"
 	"sort"
 	"strings"
 
@@ -64,8 +64,8 @@ type linEnv struct {
 	cells map[string]string // memory-cell epoch key -> atom name
 	// condDefs: results of unsigned arithmetic. The atom equals its linear form only when the form is shown to stay
 	// inside the type's range (no wrap-around) from the facts at hand; until then it is an opaque value of its type.
-	condDefs []condDef
-	maxOf    map[string]int64 // atoms of narrow unsigned type: their largest value
+	condDefs  []condDef
+	maxOf     map[string]int64 // atoms of narrow unsigned type: their largest value
 	resolving bool
 	// defFacts: facts that hold by the definition of an atom (q = x / k for x >= 0: k*q <= x <= k*q + k-1)
 	defFacts []linFact
@@ -2129,7 +2129,6 @@ func forwardedStore(key string, base ssa.Value, path string) (ssa.Value, bool) {
 	}
 	return nil, false
 }
-
 
 // callFactRoots feeds the values that the facts and the current goal mention to visit (so that unconditional facts
 // about calls among them can be added).
